@@ -391,4 +391,34 @@ example : (quiesce 2 8 (raceStart .cas ⟨.runFirst, 2, true⟩ (initStart 1 1))
 
 end race
 
+/-! ### the stage-status rule keeps a waiting stage waiting -/
+
+/-- **A stage with a SUSPENDED (or PAUSED / BUFFERED) task and no halted task is never given a completed status by the
+    stage-status rule**: `determine_status` answers SUSPENDED / PAUSED / BUFFERED whatever the other tasks are, so a
+    CompleteStage delivered early, late or twice cannot finish a stage that waits for its signal. -/
+theorem waiting_task_keeps_stage_waiting (sc : StageCfg) (cur : Status) (ts : List Status)
+    (hh : ts.contains .terminal = false ∧ ts.contains .stopped = false ∧ ts.contains .canceled = false)
+    (hw : ts.contains .suspended = true ∨ ts.contains .paused = true ∨ ts.contains .buffered = true) :
+    determineStatus sc cur ts = .suspended ∨ determineStatus sc cur ts = .paused ∨ determineStatus sc cur ts = .buffered := by
+  have hemp : ts.isEmpty = false := by
+    cases ts with
+    | nil => simp at hw
+    | cons a b => rfl
+  obtain ⟨h1, h2, h3⟩ := hh
+  unfold determineStatus
+  simp only [hemp, h1, h2, h3, Bool.false_eq_true, ↓reduceIte]
+  by_cases hp : ts.contains .paused = true
+  · rw [if_pos hp]; simp
+  by_cases hb : ts.contains .buffered = true
+  · rw [if_neg hp, if_pos hb]; simp
+  have hs : ts.contains .suspended = true := by
+    rcases hw with h | h | h
+    · exact h
+    · exact absurd h hp
+    · exact absurd h hb
+  rw [if_neg hp, if_neg hb, if_pos hs]; simp
+
+example : Stab.Engine.determineStatus default .running [.succeeded, .suspended, .notStarted] = .suspended := by decide
+example : (Stab.Engine.determineStatus default .running [.suspended, .terminal]).isComplete = true := by decide   -- why the guard is there
+
 end Stab.Props.C18
